@@ -96,6 +96,8 @@ MUTATIONS = {
         ('decode', 'tonic/src/codec/decode.rs', r'self\.inner\.state = State::Error\(None\);\s*return Poll::Ready\(Some\(Err\(status\)\)\);\s*\}\s*\}\s*\n\s*match ready!', 'return Poll::Ready(Some(Err(status)));\n                }\n            }\n\n            match ready!', 'decode error does not enter the error state'),
     ],
     'C08': [
+        ('metadata', 'tonic/src/metadata/map.rs', r'(impl<\'a> Iterator for Values<\'a> \{[\s\S]*?)if Ascii::is_valid_key\(name\.as_str\(\)\) \{', r'\1if !Binary::is_valid_key(name.as_str()) && name.as_str().len() > 3 {', 'Values presents short-named ASCII entries as binary'),
+        ('metadata', 'tonic/src/metadata/map.rs', r'(impl<\'a> Iterator for Keys<\'a> \{[\s\S]*?)KeyRef::Ascii\(MetadataKey::unchecked_from_header_name_ref\(key\)\)\n            \} else \{\n                KeyRef::Binary', r'\1KeyRef::Binary(MetadataKey::unchecked_from_header_name_ref(key))\n            } else {\n                KeyRef::Ascii', 'Keys presents every key on the wrong side'),
         ('metadata', 'tonic/src/metadata/map.rs', r'self\.headers\.extend\(other\.headers\);', 'self.headers = other.headers;', 'merge drops the existing entries'),
         ('metadata', 'tonic/src/metadata/encoding.rs', r'crate::util::base64::STANDARD_NO_PAD\.encode\(value\);', 'crate::util::base64::STANDARD_NO_PAD.encode(&b"x"[..]);', 'binary value replaced before encoding'),
         ('metadata', 'tonic/src/metadata/map.rs', r'HeaderName::from_static\("grpc-message-type"\),', 'HeaderName::from_static("grpc-message-typo"),', 'a reserved name misspelt in the table'),
